@@ -2,8 +2,11 @@
 
 META = {
     'level': 'fault_enumeration',
-    'rule': ('(a) KeyboardInterrupt raised by a sys.monitoring LINE failpoint at the k-th labtech line executed by the '
-             'calling thread during run_tasks: serial - every k of several 3-5 task scenarios with cache hits and '
+    'rule': ('(a) an interrupt that ARRIVES when the calling thread reaches the k-th labtech line executed during '
+             'run_tasks (sys.monitoring LINE failpoint) and is DELIVERED as KeyboardInterrupt where CPython would '
+             'deliver it - at the next function entry / generator resume, backward jump or return from a C call '
+             'outside harness code (PY_START/PY_RESUME/JUMP/C_RETURN events switched on at arrival), never at an '
+             'instruction boundary where the interpreter does not look at signals: serial - every k of several 3-5 task scenarios with cache hits and '
              'misses (displays off and on); fork/spawn - strided k in the quick tier, every k of several scenarios in '
              'the thorough tier; (b) a second interrupt k2 lines after the first while gated tasks are still executing; '
              '(c) real SIGINT to the process group (workers and manager processes receive it as with a terminal '
@@ -16,8 +19,9 @@ META = {
              'SIGALRM watchdog turns a run that never returns into a hang verdict (gates are never opened in the '
              'double case, so waiting for the tasks is a logical hang). Distinct by (scenario, k1, k2 / signal '
              'point); a case counts only if the interrupt was actually delivered.'),
-    'assumptions': ['line granularity in the calling thread; interrupts inside C code or between bytecodes of one '
-                    'line are not enumerated', 'a worker that dies while bootstrapping has not started its task'],
+    'assumptions': ['arrival at line granularity in the calling thread, delivery at the first eval-breaker-equivalent '
+                    'event after it; later check points of the same line are reached only through the lines of '
+                    'the labtech (or, in (d), multiprocessing) code it calls', 'a worker that dies while bootstrapping has not started its task'],
     'tiers': {
         'quick': {'shards': 16, 'budget_s': 50, 'mp_scn': 1, 'mp_stride': 9, 'serial_scn': 2, 'serial_stride': 2, 'fork_scn': 2, 'fork_stride': 7,
                   'spawn_scn': 1, 'spawn_stride': 40, 'double_pairs': 160, 'sigint_runs': 48},
@@ -407,6 +411,10 @@ def run_job(rep, job):
     rep.count(f'{"mpio" if mp else mode}_{scn["backend"]}_{tag}')
     for s in r['fired']:
         rep.seen('interrupt_sites', f"{s['file']}:{s['func']}")
+        if s.get('delivered_in'):
+            rep.seen('interrupt_delivery_frames', s['delivered_in'])
+            if s['delivered_in'] != f"{s['file']}:{s['func']}":
+                rep.count('interrupts_delivered_in_a_callee_or_later_frame')
     seen = set()
     for key, msg in r['bad']:
         if key not in seen:
